@@ -68,6 +68,15 @@ KeyOrder == <<"a", "b", "c", "d", "e", "f", "g", "h", "p", "q", "zz">>
 KeyRank(k) == IF InSeq(k, KeyOrder) THEN IndexOf(k, KeyOrder) ELSE 1000
 StrLess(k1, k2) == KeyRank(k1) < KeyRank(k2)
 
+\* ds.sort(key_fn, sort_fn, reverse): the ORDER is the business of sort_fn
+\* (default `sorted`; "e.g. natsort.natsorted").  sfn = "std" is `sorted`;
+\* sfn = "m3" is a custom sort function with another total order: integers by
+\* (v mod 3, v), strings descending.  (A term without the field means "std".)
+Sfn(a) == IF "sfn" \in DOMAIN a THEN a.sfn ELSE "std"
+IntLessBy(sfn, x, y) ==
+  IF sfn = "m3" THEN (x % 3 < y % 3) \/ (x % 3 = y % 3 /\ x < y) ELSE x < y
+StrLessBy(sfn, k1, k2) == IF sfn = "m3" THEN StrLess(k2, k1) ELSE StrLess(k1, k2)
+
 -----------------------------------------------------------------------------
 (* Outcome records (uniform shape, so any two outcomes are comparable).    *)
 
